@@ -292,6 +292,13 @@ func c09Run(c *core.Ctx, prod string, t reflect.Type, la string) {
 						c.Sample(prod+"/"+mode, desc)
 					}
 					viol := func(sym string, w, g interface{}) {
+						if c.Flavour == "inplace" && (prod == "TensorMul" || prod == "Dot") && sym == "wrong-product" &&
+							((la != gen.LC && la != gen.LMS) || (lb != gen.LC && lb != gen.LMS)) {
+							// deviation hypothesis (KF-05): the contraction transposes private copies of its operands; a copy of a lazily
+							// transposed tensor or of a view keeps non-default strides, which the in-place mover of this build cannot handle
+							c.Violation(core.Sig("transposing-product", "operand-copy-with-non-default-strides", "wrong-product"), caseKey, desc, w, g)
+							return
+						}
 						if en := engineName(); en != "" && engineFor(t) != nil {
 							sym += "|engine=" + en
 						}
